@@ -21,11 +21,11 @@ for d in sorted(glob.glob(H + "/seeded/*/meta.json")):
     m = json.load(open(d))
     missed = m["note"].lower().startswith("missed") or "missed" in m["note"].lower()
     first = ("**missed**" if missed else "detected") + ": " + m["detected_by"]
-    rows.append("| %s (%s) | %s | %s | %s |" % (m["id"], ", ".join(os.path.basename(x) for x in m["files_changed"]), m["needs_to_manifest"], first, m.get("detected_by_after_strengthening", "-")))
+    rows.append("| %s (%s) | %s | %s | %s |" % (m["id"], ", ".join(os.path.basename(x) for x in m["files_changed"]), m["needs_to_manifest"].replace("|", "/").replace("\n", " "), first, m.get("detected_by_after_strengthening", "-")))
 t2 = "\n".join(rows)
 p = H + "/DESIGN.md"
 s = open(p).read()
-s = re.sub(r"<!-- TABLE1 -->.*?<!-- /TABLE1 -->", "<!-- TABLE1 -->\n" + t1 + "\n<!-- /TABLE1 -->", s, flags=re.S)
-s = re.sub(r"<!-- TABLE2 -->.*?<!-- /TABLE2 -->", "<!-- TABLE2 -->\n" + t2 + "\n<!-- /TABLE2 -->", s, flags=re.S)
+s = re.sub(r"<!-- TABLE1 -->.*?<!-- /TABLE1 -->", lambda m: "<!-- TABLE1 -->\n" + t1 + "\n<!-- /TABLE1 -->", s, flags=re.S)
+s = re.sub(r"<!-- TABLE2 -->.*?<!-- /TABLE2 -->", lambda m: "<!-- TABLE2 -->\n" + t2 + "\n<!-- /TABLE2 -->", s, flags=re.S)
 open(p, "w").write(s)
 print("DESIGN.md tables updated:", len(t1.splitlines()) - 2, "checks,", len(t2.splitlines()) - 2, "seeded changes")
